@@ -78,6 +78,14 @@ fn build(c: &mut Choices, placement: usize, style: usize, text: usize, opt_pragm
         _ => None,
     };
     let expected: Option<String> = effective.map(|s| s.to_string()).or(opts.pragma.clone());
+    // other comments around the annotation comment, attached to the same statement
+    let neighbour = g.c.pick(4);
+    let comment = match neighbour {
+        1 => format!("{comment}\n/* eslint-disable no-unused-vars */"),
+        2 => format!("// licence: MIT\n{comment}"),
+        3 => format!("/* first */\n{comment}\n// last"),
+        _ => comment,
+    };
     let at = |p: &str| if pl == p { format!("{comment}\n") } else { String::new() };
     let stmts = vec![("e0".to_string(), n0.clone())];
     // assemble by hand: the shared assembler has no comment slots
@@ -125,6 +133,9 @@ fn build(c: &mut Choices, placement: usize, style: usize, text: usize, opt_pragm
         case.label(format!("text={ann}"));
     }
     case.label(format!("option-pragma={opt_pragma}"));
+    if pl != "none" && neighbour != 0 {
+        case.label("other-comments-around-the-annotation");
+    }
     case.label(format!("expected-factory={}", expected.clone().unwrap_or_else(|| "createVNode".into())));
     case.extra = json!({
         "env": g.env.json(),
